@@ -1365,3 +1365,63 @@ def check_graphs(prog: Program) -> list[Result]:
         else:
             out.append(Result(name, HELD, "", f"{nkeys} keys: outputs defined, closed, acyclic, unambiguous, no planner objects", None, 0.0, 0, {"keys": nkeys}))
     return out
+
+
+# ---------------------------------------------------------------------------------------------- C16 reconstruction in a clean environment
+
+def check_reconstruct(prog: Program) -> list[Result]:
+    """C16 by-product: every form (logical, optimised, lowered) of the query is pickled, every module-level cache and the
+    singleton table are emptied (the receiving process), and the unpickled collection must report the same name, schema
+    and divisions and compute the same result.  Concrete (tag data); the environment is the adversary."""
+    init()
+    import pickle
+
+    import dask_expr._shuffle as _sh
+    import dask_expr._repartition as _rp
+    from dask_expr._core import Expr
+    from dask_expr._collection import new_collection
+    from dask_expr._expr import optimize
+    from symdf import conc
+
+    env, frames = make_env(prog)
+    out = []
+    try:
+        q = prog.build(make_collections(prog, frames))
+    except Exception as e:
+        return [Result(prog.name + "|pickle", SKIPPED, "", f"program does not build: {type(e).__name__}")]
+    forms = {"logical": lambda: q, "optimized": lambda: new_collection(optimize(q.expr)), "lowered": lambda: new_collection(q.expr.lower_completely())}
+    for form, mk in forms.items():
+        name = f"{prog.name}|pickle|{form}"
+        sig = _sig(prog, "pickle|" + form)
+        try:
+            coll = mk()
+            want = (coll._name, _labels_of_meta(coll._meta), tuple(coll.divisions), coll.npartitions)
+            ref = concrete(coll.expr)
+            blob = pickle.dumps(coll)
+        except Exception as e:
+            out.append(Result(name, SKIPPED, "", f"form cannot be built/pickled: {type(e).__name__}: {str(e)[:100]}"))
+            continue
+        saved = (dict(_sh.divisions_lru.data), dict(_rp.mem_usages_lru.data))
+        try:
+            _sh.divisions_lru.data.clear()
+            _rp.mem_usages_lru.data.clear()
+            Expr._instances.clear()
+            try:
+                back = pickle.loads(blob)
+                got = (back._name, _labels_of_meta(back._meta), tuple(back.divisions), back.npartitions)
+                res = concrete(back.expr)
+            except Exception as e:
+                out.append(Result(name, VIOLATION, sig, f"received collection fails: {type(e).__name__}: {str(e)[:200]}", {"engine": "P", "program": prog.name, "stage": "pickle|" + form}))
+                continue
+        finally:
+            _sh.divisions_lru.data.update(saved[0])
+            _rp.mem_usages_lru.data.update(saved[1])
+        if got != want:
+            out.append(Result(name, VIOLATION, sig, f"name/schema/divisions differ after the round trip: {want} vs {got}", {"engine": "P", "program": prog.name, "stage": "pickle|" + form}))
+            continue
+        same, msg = conc.same_pandas(ref, res, prog.ordered, prog.check_index)
+        if not same:
+            out.append(Result(name, VIOLATION, sig, f"result differs after the round trip: {msg}", {"engine": "P", "program": prog.name, "stage": "pickle|" + form}))
+        else:
+            out.append(Result(name, HELD, "", "same name, schema, divisions and result in a clean environment", queries=1))
+    return out
